@@ -94,9 +94,17 @@ type desc struct {
 type limiter struct {
 	r    *core.Result
 	seen map[string]int
+	tag  string // appended to the trigger part of every signature (second field)
 }
 
 func (l *limiter) add(sig, format string, a ...interface{}) {
+	if l.tag != "" {
+		if p := strings.SplitN(sig, "|", 3); len(p) == 3 {
+			sig = p[0] + "|" + p[1] + "," + l.tag + "|" + p[2]
+		} else {
+			sig += "," + l.tag
+		}
+	}
 	if l.seen == nil {
 		l.seen = map[string]int{}
 	}
@@ -167,6 +175,17 @@ func mkCase(s *pbref.Schema, m pbref.NV, fam, tag string) core.Case {
 			if pi := core.Catch(func() { c.run(fam) }); pi != nil {
 				r.Class = "panic"
 				r.Add(fam+"|uncaught|panic@"+pi.Site+":"+core.PanicClass(pi.Val), "%s %s: panic outside a judged call: %s\n%s", s.ID, m.V, pi.Val, pi.Stack)
+			}
+			// the same message with its top-level fields in descending number order on the wire (path lookups only:
+			// listings follow the wire order by design)
+			if (fam == "GetByPath" || fam == "GetByPathByName" || fam == "GetMany" || fam == "Children") && len(r.Viol) == 0 && len(m.V.Fs) > 1 {
+				l2 := &limiter{r: &r, tag: "wire-order-descending"}
+				c2 := &ctx{s: s, root: m.V, l: l2, r: &r, descending: true}
+				if pi := core.Catch(func() { c2.run(fam) }); pi != nil {
+					r.Class = "panic"
+					r.Add(fam+"|uncaught,wire-order-descending|panic@"+pi.Site+":"+core.PanicClass(pi.Val), "%s %s: panic outside a judged call: %s\n%s", s.ID, m.V, pi.Val, pi.Stack)
+				}
+				c.reads += c2.reads
 			}
 			if len(r.Viol) > 0 && r.Class == "ok" {
 				r.Class = "violation"
